@@ -11,6 +11,8 @@ import (
 
 	"github.com/dave/dst"
 	"github.com/dave/dst/decorator"
+	"github.com/dave/dst/decorator/resolver/goast"
+	"github.com/dave/dst/decorator/resolver/guess"
 
 	"verif/internal/corpus"
 	"verif/internal/fw"
@@ -105,6 +107,10 @@ func c15One(c *fw.Ctx, kind string, src []byte) {
 			fset.AddFile("pad", -1, 77)
 			return decorator.NewDecorator(fset).ParseFile("in.go", src, parser.AllErrors)
 		}},
+		{"Decorator(goast).Parse", func() (*dst.File, error) {
+			// the import-resolving decorator reads the import declarations of the (possibly broken) file
+			return decorator.NewDecoratorWithImports(token.NewFileSet(), "example.com/self", goast.New()).Parse(src)
+		}},
 	}
 	for _, e := range eps {
 		var f *dst.File
@@ -144,8 +150,18 @@ func c15One(c *fw.Ctx, kind string, src []byte) {
 			}
 			return true
 		})
-		// printing a returned tree must not panic (an error is fine)
+		// printing a returned tree must not panic (an error is fine); a tree decorated with import
+		// management is printed with import management (printing it without is documented misuse)
 		var buf bytes.Buffer
+		if e.name == "Decorator(goast).Parse" {
+			if sig, detail := fw.Try(func() {
+				_ = decorator.NewRestorerWithImports("example.com/self", guess.New()).Fprint(&buf, f)
+			}); sig != "" {
+				c.Violate("panic/Fprint-with-imports", sig, "corruption="+kind+"\n"+detail, string(src))
+			}
+			c.Count("printed_with_imports", 1)
+			continue
+		}
 		if sig, detail := fw.Try(func() { _ = decorator.Fprint(&buf, f) }); sig != "" {
 			c.Violate("panic/Fprint", sig, "corruption="+kind+" (tree from "+e.name+")\n"+detail, string(src))
 			continue
